@@ -36,8 +36,14 @@ func runCase(p *Property, line string) (res Result) {
 			res = Result{Obs: "harness-panic:" + strings.ReplaceAll(fmt.Sprint(r), "\n", " "), Oracle: "fail:harness-panic", Tags: nil}
 		}
 	}()
+	// a few case formats are shared across properties (e.g. an example-server witness in C07's corpus)
+	if r, ok := opRunners[toks[0]]; ok {
+		return r(toks)
+	}
 	return p.Run(toks)
 }
+
+var opRunners = map[string]func([]string) Result{}
 
 func main() {
 	if len(os.Args) < 3 {
